@@ -340,6 +340,45 @@ def mrg(units, R):
         if needs_object == before:
             break
     _mrg_pass(u, roles, needs_object, R)
+    _mrg_keyed(u, roles, R)
+
+
+_KEYED_LINKERS = {'cJSON_AddItemToObject': 1, 'cJSON_AddItemToObjectCS': 1, 'cJSON_ReplaceItemInObject': 1,
+                  'cJSON_ReplaceItemInObjectCaseSensitive': 1}
+_UNKEYED_LINKERS = {'cJSON_ReplaceItemViaPointer', 'cJSON_AddItemToArray', 'cJSON_InsertItemInArray', 'cJSON_ReplaceItemInArray',
+                    'cJSON_AddItemReferenceToArray'}
+
+
+def _mrg_keyed(u, roles, R):
+    """MRG4  what is put into the target object goes in under the name of the patch member it was made from: the target of a
+    merge is an object (MRG3), and a node linked into an object by a call that does not give it a name (replace via pointer,
+    the array inserters) is a member without a key - it cannot be found again, and lookups stop at it."""
+    n = 0
+    for name, rl in sorted(roles.items()):
+        fn = u.functions[name]
+        var = _role_vars(u, fn, rl)
+        for c in fn.calls():
+            cn = callee_name(c)
+            if cn not in _KEYED_LINKERS and cn not in _UNKEYED_LINKERS:
+                continue
+            if not c['args']:
+                continue
+            root = _root_var(strip_casts(c['args'][0]))
+            if root is None or var.get(root) != 'T':
+                continue
+            n += 1
+            if cn in _UNKEYED_LINKERS:
+                R.ob('MRG4', fn, c, 'a value enters the target under the patch member\'s name', False,
+                     '%s links a node into the target object without giving it a name: the member loses its key' % cn,
+                     key='keyed:%s' % expr_str(c)[:40])
+                continue
+            key = strip_casts(c['args'][_KEYED_LINKERS[cn]])
+            kroot = _root_var(strip_casts(key['b'])) if key.get('k') == 'mem' and key['f'] == 'string' else None
+            ok = kroot is not None and var.get(kroot) == 'P'
+            R.ob('MRG4', fn, c, 'a value enters the target under the patch member\'s name', ok,
+                 'named %s' % expr_str(key)[:40] if ok else 'the name %s is not the key of a patch member' % expr_str(key)[:40],
+                 key='keyed:%s' % expr_str(c)[:40])
+    R.floor('MRG4', 'insertions into the merge target', n, 1)
 
 
 def _family_name(c):
